@@ -50,6 +50,13 @@ def case(draw: t.Any) -> t.Dict[str, t.Any]:
     prep = [("search",)] * draw(st.integers(1, 3)) if side == "client" else draw(st.sampled_from([[], [("search",)], [("extended",)]]))
     n = draw(st.integers(1, 6))
     units = [draw(unit(side, len(prep) if side == "client" else 0, i)) for i in range(n)]
+    if draw(st.integers(0, 39)) == 0:
+        # a long run of complete units in one stream (limits on "messages per call" must not lose or hold back any)
+        rep = draw(st.sampled_from([100, 513, 1025, 2049]))
+        at = draw(st.integers(0, len(units)))
+        tiny = ({"kind": "extendedReq", "id": 4000, "controls": [], "name": "1.1", "value": None} if side == "server"
+                else {"kind": "searchResEntry", "id": 0, "controls": [], "name": "", "attributes": []})
+        units.insert(at, ("repeat", ("valid", tiny, 0 if side == "client" else None), rep))
     tail = draw(st.one_of(st.none(), st.none(), st.integers(1, 10**6)))
     mode = draw(st.sampled_from(["one", "one", "cuts", "cuts", "cuts", "bytes"]))
     return {
@@ -116,6 +123,13 @@ def check_case(c: t.Dict[str, t.Any], ctx: Ctx) -> t.List[Violation]:
     s, ids = sess.prepare(side, c["prep"])
     parts, labels, bad = [], [], []
     for u in c["units"]:
+        if u[0] == "repeat":
+            b, lab, malformed = unit_bytes(u[1], ids)
+            parts.extend([b] * u[2])
+            labels.extend(["valid(repeated)"] * u[2])
+            bad.extend([False] * u[2])
+            ctx.event(f"run-of-{'>512' if u[2] > 512 else '<=512'}-units")
+            continue
         b, lab, malformed = unit_bytes(u, ids)
         parts.append(b)
         labels.append(lab)
@@ -132,7 +146,7 @@ def check_case(c: t.Dict[str, t.Any], ctx: Ctx) -> t.List[Violation]:
         raise AssertionError(f"harness: stream does not frame into the generated units: {labels} {stream.hex()}")
     for lab in labels:
         ctx.event("unit:" + lab.split(":")[0] + (":" + lab.split(":")[1] if lab.startswith("interior:") else ""))
-    if any(bad):
+    if any(bad) or len(parts) > 50:
         ctx.nontrivial((side, stream, c["mode"], tuple(c["cuts"])))
         for i in range(len(bad) - 1):
             if bad[i] and not bad[i + 1]:
@@ -142,7 +156,8 @@ def check_case(c: t.Dict[str, t.Any], ctx: Ctx) -> t.List[Violation]:
     if c["mode"] == "one" or n == 0:
         cuts: t.List[int] = []
     elif c["mode"] == "bytes":
-        cuts = list(range(1, n))
+        # (byte-wise delivery re-parses the pending buffer on every call: long streams are cut ~40 times instead)
+        cuts = list(range(1, n)) if n <= 400 else list(range(1, n, n // 60 + 1))
     else:
         cuts = sorted(x % (n + 1) for x in c["cuts"])
     got = 0
@@ -182,7 +197,7 @@ class Streams(Part):
     def sample(self, c: t.Any) -> t.Any:
         try:
             _s, ids = sess.prepare(c["side"], c["prep"])
-            bs = [unit_bytes(u, ids) for u in c["units"]]
+            bs = [unit_bytes(u if u[0] != "repeat" else u[1], ids) for u in c["units"]]
             return {"side": c["side"], "units": [lab for _b, lab, _m in bs], "stream": b"".join(b for b, _l, _m in bs)[:160].hex(),
                     "mode": c["mode"], "tail": c["tail"] is not None}
         except Exception:
@@ -209,7 +224,8 @@ PROP = Property(
         "interior single-node corruption while the outer length is kept right (inner length over/under-running its "
         "parent, components deleted/duplicated/truncated, tag flips, indefinite length, ...), a paged-results control "
         "whose value is absent/empty/short/not a sequence, an interior replaced by random bytes after the message id, "
-        "or an outer TLV that is not a SEQUENCE - optionally followed by a genuinely incomplete tail, delivered in one "
+        "or an outer TLV that is not a SEQUENCE, occasionally with a run of 100..2049 identical valid units inserted - optionally "
+        "followed by a genuinely incomplete tail, delivered in one "
         "piece, byte-wise or at generated cuts to a client or server. Oracle (independent framing, vf/ber.py frame() "
         "looks at outer identifier/length octets only): after every receive call that returns normally, messages "
         "returned so far == complete units delivered so far; a ProtocolError ends the run. Non-trivial = the stream "
